@@ -10,14 +10,17 @@ interval (a disagreement there is a harness error) and toqito's returned values:
 1 for mutually orthogonal states (minErr_orthogonal_eq_one), >= largest prior (minErr_ge_prior), <= 1 (minErr_le_one), >= the success
 probability of toqito's pretty good measurement (pgm_le_dual), unambiguous value 1 - |<psi|phi>| for two equiprobable pure states
 (unamb_two_unit_vectors), 0 for linearly dependent pure states (unamb_value_zero_of_all_dependent), within [0, 1]
-(unamb_zero_feasible / unamb_le_sum_prior) and <= the min-error value (cited reduction)."""
+(unamb_zero_feasible / unamb_le_sum_prior) and <= the min-error value (unamb_le_minErr); two pure states with any prior (Jaeger-Shimony: unamb_two_states_unbalanced /
+unamb_two_states_jaeger_shimony), orthonormal states (unamb_orthonormal).  Further streams (history, embedding, front, post): see RULE."""
 from __future__ import annotations
 
 import warnings
+from fractions import Fraction
 
 import numpy as np
 
 from ..cert import DM, chol_factor, frac_json, repair_povm
+from ..common import CorrespondenceBroken
 from ..exact import Pure, call_rng, describe, present_list, vary_ensemble
 from ..pool import Result, run_pool, worker_driver
 from .. import qgen
@@ -26,18 +29,32 @@ RULE = ("ensembles (2..5 states, dimension 2..4, real/complex integer amplitudes
         "density matrices, dyadic priors) from the seeded generator x strategy x primal/dual form x solver; per instance the Lean checker certifies "
         "[lo, hi] for the exact image of the inputs; non-trivial = certified interval clear of the trivial bounds (max prior + 1e-2 <= value <= 1 - 1e-2 "
         "for min-error; 1e-2 <= value for unambiguous) ; distinct = hash of the instance and call form; a second, smaller stream forces the "
-        "closed-form families (equiprobable pure pairs, linearly dependent sets, orthonormal sets) through the same worker; "
+        "closed-form families (pure pairs with equal and with unequal priors, linearly dependent sets, orthonormal sets) through the same worker; "
         "presentation: every call receives the same values in a freshly drawn presentation per list element (C / Fortran / strided memory layout; real-valued "
         "states as float64, integer-valued ones as int64), one in three complex ensembles of the kinds random / near has some states made real-valued "
         "(real-dtype first element followed by complex ones, or the reverse; also computational basis vectors), priors with exact zeros, uniform priors given "
         "explicitly or as None; the caller's list, arrays and priors must be untouched by every call and a repeated call on the same objects (one in four calls) "
-        "must return the same value")
+        "must return the same value; is_distinguishable is called on every ensemble whose default (min-error, dual) call returned (non-trivial = a dual certificate "
+        "puts the optimum below 1 - 1e-3, or the returned value is within 5e-6 of 1); stream `history`: default call on A, call with coarse solver options (kwargs) on B, "
+        "default call on A again, per strategy x form; stream `embedding`: per instance and form the picos program handed to Problem.solve is captured (never solved) and "
+        "compared with the Lean program sd_program (sdPrepare / sdGram on the exact images of the arrays as given, probs None included) at exact points -- a random interior point "
+        "and the repaired optimum of the reference solver (non-trivial = point certified feasible by the verified checker) -- and at negative controls derived from them "
+        "(each violating one constraint of the model by >= 1e-2); stream `front`: 1-D / column / row / square / mixed / mismatching / non-square argument lists x "
+        "strategy, primal_dual given or omitted x probs given or None against the Lean mirror sdFront of the argument check and dispatch; stream `post`: "
+        "is_distinguishable with state_distinguishability replaced by a recorder returning chosen values around the np.isclose threshold against sdDistTest")
 ASSUMPTIONS = [
     "toqito computes with the float inputs it is given; the instance certified is their exact dyadic image (difference <= 1e-15 relative)",
     "tolerance 2e-5 on CVXOPT-solved values (declared in DESIGN.md 4.4), 1e-3 for SCS",
-    "the Gram-matrix program is taken as the definition of the unambiguous-discrimination value (Eldar's reduction is cited, not proved)",
+    "unambiguous discrimination is computed in Gram form; that its values are exactly the success probabilities of unambiguous measurements is proved (unamb_values_eq_measurement_values)",
     "closed forms are evaluated in float64 on the same float inputs (eigvalsh / inner products, error <= 1e-12) and compared with tolerance tau",
     "pretty good measurement: compared only when sum_i p_i rho_i has smallest eigenvalue >= 1e-6 (P^(-1/2) exists; C19 covers the PGM itself)",
+    "embedding: picos evaluates the captured affine expressions in float64 at the float image of an exact point; agreement with the model's exact value is demanded to 1e-12 x scale "
+    "(objective) and 1e-9 (feasibility of certified points); picos' own expression evaluation is trusted, the solver is not involved",
+    "embedding / front / post compare STRUCTURE (variables, dispatch, argument pass-through): a mismatch there that is not a wrong value on a concrete input is reported as "
+    "CorrespondenceBroken, not as a failing input",
+    "history: CVXOPT is deterministic for identical inputs and options (observed; equality to 1e-9 demanded)",
+    "one call of the implementation gets 8 s (quick) / 12 s (thorough) of CPU time (a normal call: 0.02 .. 0.3 s); a call that does not return in that time is counted "
+    "as `call-timeout` (solver runtime behaviour: CVXOPT stalls for tens of thousands of iterations on a few ordinary programs and then raises ZeroDivisionError), not a violation",
 ]
 TAU = {"cvxopt": 2e-5, "scs": 1e-3}
 WIDTH_OK = 1e-4  # certified intervals wider than this are counted as uncertified (never a violation by themselves)
@@ -91,8 +108,8 @@ def gen_instance(rng, quick, family=None):
         z = int(rng.integers(k))          # "any prior": an exact zero entry
         rest = qgen.dyadic_probs(rng, k - 1)
         probs = rest[:z] + [0.0] + rest[z:]
-    if family == "pair":
-        probs = [0.5, 0.5]
+    if family == "pair" and rng.integers(2):
+        probs = [0.5, 0.5]      # equiprobable pair (unamb_two_unit_vectors); otherwise the dyadic prior drawn above (Jaeger-Shimony regimes)
     if form == "dm_mixed":
         states = [qgen.rand_density(rng, d, int(rng.integers(1, d + 1)), cplx) for _ in range(k)]
     elif form == "dm":
@@ -107,6 +124,34 @@ def gen_instance(rng, quick, family=None):
         vecs = [np.real(v) for v in vecs]
     return {"d": d, "k": k, "cplx": cplx, "form": form, "kind": kind, "states": [np.asarray(s).tolist() if False else s for s in states],
             "vecs": (None if form == "dm_mixed" else vecs), "probs": probs, "probs_given": bool(rng.integers(4) > 0) or len(set(probs)) > 1}
+
+
+# ------------------------------------------------------------------------------------------------
+# bounded calls of the implementation (CVXOPT occasionally stalls for minutes on an ordinary program before it ends in a ZeroDivisionError)
+
+
+class CallTimeout(BaseException):
+    """raised by the CPU-time limit around one call of the implementation (BaseException: must not be swallowed by `except Exception`)"""
+
+
+CALL_LIMIT_S = {"quick": 8.0, "thorough": 12.0}   # a normal call takes 0.02 .. 0.3 s
+_tier = "quick"
+
+
+def _limited(fn, *a, **kw):
+    """run fn with a CPU-time limit (SIGVTALRM, independent of the pool's wall-clock SIGALRM); raises CallTimeout"""
+    import signal
+
+    def h(signum, frame):
+        raise CallTimeout()
+
+    old = signal.signal(signal.SIGVTALRM, h)
+    signal.setitimer(signal.ITIMER_VIRTUAL, CALL_LIMIT_S.get(_tier, 8.0))
+    try:
+        return fn(*a, **kw)
+    finally:
+        signal.setitimer(signal.ITIMER_VIRTUAL, 0)
+        signal.signal(signal.SIGVTALRM, old)
 
 
 # ------------------------------------------------------------------------------------------------
@@ -301,15 +346,20 @@ def work(task, res: Result):
                     strategy=strategy, solver=solver, primal_dual=pd)
         guard = Pure(**args)
         try:
-            val, meas = state_distinguishability(**args)
+            val, meas = _limited(state_distinguishability, **args)
             why_mod = guard.modified()
             val2 = None
             if why_mod is None and prng is not None and int(prng.integers(4)) == 0:
                 try:
-                    val2 = float(state_distinguishability(**args)[0])   # the SAME objects again
+                    val2 = float(_limited(state_distinguishability, **args)[0])   # the SAME objects again
                     why_mod = guard.modified()
-                except (ArithmeticError, ZeroDivisionError):
+                except (ArithmeticError, ZeroDivisionError, CallTimeout):
                     res.count("repeat-call/solver-numerical-failure")
+        except CallTimeout:
+            # the solver does not terminate within the CPU budget of one call (runtime behaviour of the solver, DESIGN.md section 10): counted,
+            # the remaining calls and checks of this instance go on
+            res.case(desc, False, f"{strategy}/{pd}/{solver}/call-timeout")
+            continue
         except (ArithmeticError, ZeroDivisionError) as e:
             # CVXOPT's KKT solver breaking down numerically on a degenerate instance: runtime behaviour of the solver,
             # not a statement about the optimum (DESIGN.md section 10); counted, never silently dropped
@@ -361,6 +411,37 @@ def work(task, res: Result):
                                   {"function": "state_distinguishability", "args": desc, "impl": float(val), "povm_residual": povm_res, "min_eig": mineig, "attained": att, "cplx": inst["cplx"]})
             except Exception as e:
                 res.count("returned-measurement-unreadable")
+    # ---- is_distinguishable on the same ensemble (it makes the default call: min_error, dual): False whenever a dual certificate separates the
+    # optimum from 1 (sd_dist_test_false_of_dual), True whenever the dual value returned above is 1 to solver accuracy (sd_dist_test_true_of_near_one)
+    v_dual = got.get(("min_error", "dual", "cvxopt"))
+    if v_dual is not None:
+        from toqito.state_props import is_distinguishable
+        d_states = present_list(call_rng(inst.get("pres"), "isdist"), states, force_real=inst.get("real_idx", ()))
+        d_probs = list(probs) if inst["probs_given"] else None
+        d_guard = Pure(d_states, d_probs)
+        try:
+            ans = bool(_limited(is_distinguishable, d_states, d_probs))
+        except (ArithmeticError, ZeroDivisionError, CallTimeout):
+            ans = None
+            res.count("is_distinguishable/solver-numerical-failure")
+        except Exception as e:
+            ans = None
+            res.violation(f"is_distinguishable raises {type(e).__name__}: {str(e)[:120]} on an ensemble state_distinguishability solved",
+                          {"function": "is_distinguishable", "args": dict(base, probs_given=inst["probs_given"]), "exception": f"{type(e).__name__}: {str(e)[:300]}", "cplx": inst["cplx"]})
+        if ans is not None:
+            ddesc = dict(base, fn="is_distinguishable", probs_given=inst["probs_given"], strategy="min_error", primal_dual="dual", solver="cvxopt")
+            if d_guard.modified() is not None:
+                res.violation(f"is_distinguishable: caller's arguments were modified ({d_guard.modified()})",
+                              {"function": "is_distinguishable", "args": ddesc, "modified": d_guard.modified(), "check": "purity", "cplx": inst["cplx"]})
+            sep = hi is not None and lo is not None and hi - lo <= WIDTH_OK and hi < 1 - 1e-3
+            one = abs(v_dual - 1.0) <= 5e-6
+            res.case(ddesc, sep or one, f"is_distinguishable/{'separated' if sep else 'one' if one else 'undecided'}/{ans}")
+            if sep and ans:
+                res.violation(f"is_distinguishable answers True although no measurement succeeds with probability above the certified {hi:.8f}",
+                              {"function": "is_distinguishable", "args": ddesc, "impl": True, "certified": [lo, hi], "theorem": "checkMinErrDual_sound / sd_dist_test_false_of_dual", "cplx": inst["cplx"]})
+            if one and not ans:
+                res.violation(f"is_distinguishable answers False although state_distinguishability returns {v_dual:.10f} for the same ensemble",
+                              {"function": "is_distinguishable", "args": ddesc, "impl": False, "value": v_dual, "theorem": "sd_dist_test_true_of_near_one", "cplx": inst["cplx"]})
     # ---- closed forms and inequalities on the certified interval (min-error)
     if lo is not None and hi is not None and hi - lo <= WIDTH_OK:
         tau = 2e-5
@@ -368,7 +449,7 @@ def work(task, res: Result):
             hel = 0.5 + 0.5 * float(np.sum(np.abs(np.linalg.eigvalsh(probs[0] * rhos_f[0] - probs[1] * rhos_f[1]))))
             res.count("closed-form/helstrom")
             if not (lo - tau <= hel <= hi + tau):
-                res.violation("certified min-error optimum disagrees with the Helstrom bound (harness or cited closed form wrong)", {"function": "helstrom", "args": base, "helstrom": hel, "certified": [lo, hi]})
+                res.violation("certified min-error optimum disagrees with the Helstrom bound (harness or closed form wrong)", {"function": "helstrom", "args": base, "helstrom": hel, "certified": [lo, hi]})
         if inst["kind"] == "orthogonal" and inst["form"] != "dm_mixed":
             res.count("closed-form/orthogonal")
             if hi < 1 - 1e-6:
@@ -388,8 +469,20 @@ def work(task, res: Result):
         G_f = (V.H() @ V).to_float()
         if k == 2 and probs[0] == probs[1]:
             cf_unamb = ("unamb-two-state", 1.0 - abs(G_f[0, 1]), "unamb_two_unit_vectors")
+        elif k == 2:
+            # Jaeger-Shimony: every prior (three regimes; primal and dual optimum coincide in each)
+            r2 = abs(G_f[0, 1]) ** 2
+            p0_, p1_ = float(probs[0]), float(probs[1])
+            if p0_ <= r2 * p1_:
+                cf_unamb = ("unamb-two-state-unbalanced", p1_ * (1.0 - r2), "unamb_two_states_unbalanced")
+            elif p1_ <= r2 * p0_:
+                cf_unamb = ("unamb-two-state-unbalanced", p0_ * (1.0 - r2), "unamb_two_states_unbalanced_swap")
+            else:
+                cf_unamb = ("unamb-two-state-jaeger-shimony", p0_ + p1_ - 2.0 * np.sqrt(r2 * p0_ * p1_), "unamb_two_states_jaeger_shimony")
         elif inst["kind"] == "dependent":
             cf_unamb = ("unamb-dependent-zero", 0.0, "unamb_value_zero_of_all_dependent")
+        elif inst["kind"] == "orthogonal":
+            cf_unamb = ("unamb-orthonormal", float(sum(probs)), "unamb_orthonormal")
         if cf_unamb is not None and ulo is not None:
             res.count("closed-form/" + cf_unamb[0])
             if not (ulo - 2e-5 <= cf_unamb[1] <= uhi + 2e-5):
@@ -397,7 +490,7 @@ def work(task, res: Result):
                               {"function": cf_unamb[0], "args": base, "closed_form": cf_unamb[1], "certified": [ulo, uhi], "theorem": cf_unamb[2]})
         if ulo is not None and (ulo < -1e-9 or ulo > 1 + 1e-9):
             res.violation("certified unambiguous optimum outside [0, 1] (harness error)", {"function": "unamb_range", "args": base, "certified": [ulo, uhi]})
-    # ---- pretty good measurement (toqito's) against the certified interval: P_pgm <= P_opt (pgm_le_dual), P_opt^2 <= P_pgm (Barnum-Knill, cited)
+    # ---- pretty good measurement (toqito's) against the certified interval: P_pgm <= P_opt (pgm_le_dual), P_opt^2 <= P_pgm (Barnum-Knill: minErr_sq_le_pgm_normalised)
     pgm_val = None
     try:
         from toqito.measurements import pretty_good_measurement
@@ -421,7 +514,7 @@ def work(task, res: Result):
         res.count("closed-form/pgm-le-opt")
         if pgm_val > hi + 1e-6 or lo * lo > pgm_val + 1e-6 + 2 * WIDTH_OK:
             res.violation(f"pretty good measurement's success probability {pgm_val:.8f} outside [P_opt^2, P_opt] for the certified optimum [{lo:.8f}, {hi:.8f}]",
-                          {"function": "pretty_good_measurement", "args": base, "pgm": pgm_val, "certified": [lo, hi], "theorem": "pgm_le_dual (upper); Barnum-Knill (lower, cited)"})
+                          {"function": "pretty_good_measurement", "args": base, "pgm": pgm_val, "certified": [lo, hi], "theorem": "pgm_le_dual (upper); minErr_sq_le_pgm_normalised (lower)"})
     # ---- the same closed forms on the values toqito returned (tolerance of the solver; calls already reported above are not in `got`)
     hel = None
     if k == 2:
@@ -460,7 +553,7 @@ def work(task, res: Result):
             if me:
                 res.count("impl-closed-form/unamb-le-minerr")
                 if v > max(me) + 2 * tau:
-                    bad.append(("<= min-error value (cited reduction)", max(me), "cited"))
+                    bad.append(("<= min-error value", max(me), "unamb_le_minErr / sd_unamb_le_minErr_certified"))
         for (name, ref, thm) in bad:
             res.violation(f"state_distinguishability({strategy},{pd},{solver}) = {v:.8f} violates the closed form / bound: {name} = {ref:.8f}",
                           {"function": "state_distinguishability", "args": desc, "impl": v, "closed_form": name, "reference": ref, "tau": tau, "theorem": thm, "cplx": inst["cplx"]})
@@ -486,10 +579,10 @@ def work_invariance(task, res: Result):
     a0 = present_list(call_rng(inst.get("pres"), "inv0"), vecs, force_real=ri)
     a2 = present_list(call_rng(inst.get("pres"), "inv2"), [vecs[i] for i in perm], force_real=[n for n, i in enumerate(perm) if i in ri])
     try:
-        v0, _ = state_distinguishability(a0, probs)
-        v1, _ = state_distinguishability(present_list(call_rng(inst.get("pres"), "inv1"), [rot(s) for s in vecs]), probs)
-        v2, _ = state_distinguishability(a2, [probs[i] for i in perm])
-    except Exception as e:
+        v0, _ = _limited(state_distinguishability, a0, probs)
+        v1, _ = _limited(state_distinguishability, present_list(call_rng(inst.get("pres"), "inv1"), [rot(s) for s in vecs]), probs)
+        v2, _ = _limited(state_distinguishability, a2, [probs[i] for i in perm])
+    except (Exception, CallTimeout) as e:
         res.case({"fn": "invariance", "k": inst["k"], "d": inst["d"]}, False, "invariance/raise")
         return
     desc = {"fn": "invariance", "d": inst["d"], "k": inst["k"], "cplx": inst["cplx"], "form": inst["form"], "perm": perm, "states": vecs, "probs": probs, "U": U,
@@ -499,18 +592,565 @@ def work_invariance(task, res: Result):
         res.violation(f"min-error value not invariant: base {v0:.8f}, common unitary {v1:.8f}, relabelled {v2:.8f}", {"function": "state_distinguishability", "args": desc, "values": [v0, v1, v2], "theorem": "minErr value is a function of the ensemble up to unitary/relabelling"})
 
 
+# ------------------------------------------------------------------------------------------------
+# stream `history`: the value of a call does not depend on the calls made before it
+
+
+LOOSE_OPTS = {"abs_ipm_opt_tol": 1e-2, "rel_ipm_opt_tol": 1e-2, "abs_prim_fsb_tol": 1e-2, "rel_prim_fsb_tol": 1e-2, "abs_dual_fsb_tol": 1e-2, "rel_dual_fsb_tol": 1e-2}
+
+
+def work_history(task, res: Result):
+    """default call on ensemble A, then a call on another ensemble B with coarse solver options handed over through **kwargs (a documented
+    argument: 'additional arguments to pass to picos' solve method'), then the default call on A again.  The solver is deterministic, so the
+    two values of A must coincide (to 1e-9); options or data that outlive the call they were given to show here."""
+    from toqito.state_opt import state_distinguishability
+    warnings.filterwarnings("ignore")
+    instA, instB, strategy, pd = task
+    sa, sb = [np.asarray(x) for x in instA["states"]], [np.asarray(x) for x in instB["states"]]
+    desc = {kk: instA[kk] for kk in ("d", "k", "cplx", "form", "kind", "probs")}
+    desc.update(fn="history", states=sa, strategy=strategy, primal_dual=pd, solver="cvxopt", other={"states": sb, "probs": instB["probs"]}, options=LOOSE_OPTS)
+
+    def default_call():
+        return float(_limited(state_distinguishability, [x.copy() for x in sa], list(instA["probs"]), strategy=strategy, primal_dual=pd)[0])
+    try:
+        v0 = default_call()
+    except (Exception, CallTimeout):
+        res.case(desc, False, "history/first-call-fails")
+        return
+    try:
+        _limited(state_distinguishability, [x.copy() for x in sb], list(instB["probs"]), strategy=strategy, primal_dual=pd, **LOOSE_OPTS)
+    except (Exception, CallTimeout):
+        res.count("history/coarse-call-raises")
+    res.case(desc, v0 > 1e-3, f"history/{strategy}/{pd}")
+    try:
+        v1 = default_call()
+    except CallTimeout:
+        res.count("history/second-call-timeout")
+        return
+    except Exception as e:
+        res.violation(f"state_distinguishability({strategy},{pd}) raises {type(e).__name__} on an ensemble it solved before a call with other solver options was made",
+                      {"function": "state_distinguishability", "args": desc, "values": [v0, None], "check": "history", "cplx": instA["cplx"]})
+        return
+    if not abs(v0 - v1) <= 1e-9:
+        res.violation(f"state_distinguishability({strategy},{pd}) depends on the calls made before it: {v0!r} before, {v1!r} after a call with coarse solver options on another ensemble",
+                      {"function": "state_distinguishability", "args": desc, "values": [v0, v1], "check": "history", "cplx": instA["cplx"]})
+
+
+# ------------------------------------------------------------------------------------------------
+# stream `embedding`: the picos programs that state_distinguishability BUILDS (captured at Problem.solve, never solved) against the
+# programs the theorems are about (Lean `sd_program`: sdPrepare / sdGram + the slack functions the verified checkers use)
+
+
+class _Captured(BaseException):
+    """raised by the patched picos.Problem.solve (BaseException: must pass through `except Exception` inside toqito)"""
+
+
+def _capture(fn):
+    """run fn with picos.Problem.solve replaced by a recorder; returns the list of (problem, solve-kwargs) it was called with"""
+    import picos
+    got = []
+    orig = picos.Problem.solve
+
+    def fake(self, *a, **kw):
+        got.append((self, dict(kw)))
+        raise _Captured()
+
+    picos.Problem.solve = fake
+    try:
+        try:
+            fn()
+        except _Captured:
+            pass
+    finally:
+        picos.Problem.solve = orig
+    return got
+
+
+def _state_args(states):
+    """raw arguments for the Lean model: exact images of the arrays handed to toqito (vector layouts -> column vector)"""
+    out = []
+    for s_ in states:
+        a = np.asarray(s_)
+        if a.ndim == 1 or 1 in a.shape:
+            out.append({"vec": DM.exact_float(a.reshape(-1, 1)).json()})
+        else:
+            out.append({"dm": DM.exact_float(a).json()})
+    return out
+
+
+def _qmat(j, shape):
+    """model matrix {"re":[[n,d]..],"im":..} -> complex float array (each entry rounded once)"""
+    re = np.array([float(Fraction(n, d_)) for n, d_ in j["re"]]).reshape(shape)
+    im = np.array([float(Fraction(n, d_)) for n, d_ in j["im"]]).reshape(shape)
+    return re + 1j * im
+
+
+def _rand_mat(rng, d, cplx, lim=3):
+    A = rng.integers(-lim, lim + 1, size=(d, d)).astype(complex)
+    B = rng.integers(-lim, lim + 1, size=(d, d))     # drawn in both cases: the stream does not depend on cplx
+    return A + 1j * B if cplx else A
+
+
+def _rand_herm(rng, d, cplx, lim=3):
+    A = _rand_mat(rng, d, cplx, lim)
+    return (A + A.conj().T) / 2.0
+
+
+def _pdy(p):
+    """float prior -> (mantissa, exponent) of its exact dyadic image"""
+    x = DM.exact_float(np.array([[p]]))
+    return int(x.re[0, 0]), x.e
+
+
+_EMBED_FORMS = {"me_primal": ("min_error", "primal", "max"), "me_dual": ("min_error", "dual", "min"),
+                "ua_primal": ("unambiguous", "primal", "max"), "ua_dual": ("unambiguous", "dual", "min")}
+_EMBED_VARS = {"me_primal": None, "me_dual": ["Y"], "ua_primal": ["success_probabilities"], "ua_dual": ["Z"]}
+EMB_TOL = 1e-12   # captured slack / objective vs model slack / objective (both are the float image of the same exact affine expression)
+EMB_BAD = 1e-3    # a negative control must violate a captured constraint by at least this much
+QBITS = 40
+
+
+def _embed_points(rng, form, rhos, probs, V, d, k, cplx):
+    """exact points of the model's program for `form` plus PSD witnesses, feasible by construction (the verified checker is the judge),
+    and negative controls derived from the point: (label, modified entries).  Points are genuinely complex exactly when some state is."""
+    I = DM.eye(d)
+    Ik = DM.eye(k)
+    if form == "me_primal":
+        Mf = [np.eye(d) / k + 0.02 * _rand_herm(rng, d, cplx) / d for _ in range(k)]
+        M = repair_povm(Mf, eps_bits=10)
+        pt = {"M": M, "LM": [chol_factor(m.to_float()) for m in M]}
+        two = I.scale_dy(2, 0)
+        bad = [("M0-not-psd", {"M": [M[0] - two, M[1] + two] + M[2:]}), ("sum-above-identity", {"M": [M[0] + I.scale_dy(1, 2)] + M[1:]}),
+               ("sum-below-identity", {"M": [M[0] - I.scale_dy(1, 4)] + M[1:]})]
+        return pt, bad
+    if form == "me_dual":
+        S = None
+        for i in range(k):
+            m_, e_ = _pdy(probs[i])
+            t = rhos[i].herm_part().scale_dy(m_, e_)
+            S = t if S is None else S + t
+        G = DM.from_float(0.25 * _rand_mat(rng, d, cplx), 8)
+        Y = (S + (G @ G.H()) + I.scale_dy(1, 6)).herm_part()          # Y = sum_j p_j rho_j + G G^H + I/64 >= p_i rho_i
+        LY = []
+        for i in range(k):
+            m_, e_ = _pdy(probs[i])
+            LY.append(chol_factor((Y - rhos[i].scale_dy(m_, e_)).to_float()))
+        return {"Y": Y, "LY": LY}, [("Y-too-small", {"Y": Y - I.scale_dy(2, 0)})]
+    G = V.H() @ V
+    Gf = G.to_float()
+    if form == "ua_primal":
+        lam = max(0.0, float(np.min(np.linalg.eigvalsh((Gf + Gf.conj().T) / 2))))
+        q = [int((0.25 + 0.5 * float(rng.random())) * lam * (1 << QBITS)) for _ in range(k)]
+        qd = DM(np.diag(np.array(q, dtype=object)) + np.zeros((k, k), dtype=object), np.zeros((k, k), dtype=object) * 0, QBITS)
+        L = chol_factor((G - qd).to_float())
+        if L is None and d <= k:
+            # (nearly) dependent vectors: q = 0 with the exact factor L = [V^H | 0] (G = L L^H exactly, residual 0)
+            q = [0] * k
+            Vh = V.H()
+            pad = np.zeros((k, k - d), dtype=object)
+            pad[...] = 0
+            L = DM(np.concatenate([Vh.re, pad], axis=1), np.concatenate([Vh.im, pad], axis=1), Vh.e)
+        pt = {"q": q, "L": L}
+        bad = [("q0-negative", {"q": [-(1 << (QBITS - 2))] + q[1:]}), ("q-too-large", {"q": [x + (2 << QBITS) for x in q]})]
+        return pt, bad
+    if form == "ua_dual":
+        P = np.zeros((k, k), dtype=object)
+        P[...] = 0
+        e_all = max(_pdy(p)[1] for p in probs)
+        for i in range(k):
+            m_, e_ = _pdy(probs[i])
+            P[i, i] = m_ << (e_all - e_)
+        Pd = DM(P, np.zeros((k, k), dtype=object) * 0, e_all)
+        Gr = DM.from_float(0.25 * _rand_mat(rng, k, cplx), 8)
+        Z = (Pd + (Gr @ Gr.H()) + Ik.scale_dy(1, 6)).herm_part()      # Z = diag p + G G^H + I/64: PSD, Z_ii >= p_i
+        E0 = np.zeros((k, k), dtype=object)
+        E0[...] = 0
+        E0[0, 0] = 1
+        z00 = Z.frac(0, 0)[0] - Fraction(float(probs[0])) + Fraction(1, 4)           # Z_00 - z00 = p_0 - 1/4
+        drop = DM(E0 * z00.numerator, np.zeros((k, k), dtype=object) * 0, z00.denominator.bit_length() - 1)
+        return {"Z": Z, "LZ": chol_factor(Z.to_float())}, [("Z-not-psd", {"Z": Z - Ik.scale_dy(2, 0)}), ("Z00-below-prior", {"Z": Z - drop})]
+    raise ValueError(form)
+
+
+def _near_optimal_points(form, rhos, probs, V, d, k):
+    """untrusted: the reference solver's optimal points, rounded and repaired to exact feasible points (as in certify_*); there the constraints
+    are (nearly) tight, so a wrong weight, conjugate or transpose inside a constraint shows"""
+    I = DM.eye(d)
+    try:
+        if form in ("me_primal", "me_dual"):
+            Ms_ref, Y_ref = _solve_ref([r.herm_part().to_float() for r in rhos], probs)
+            if form == "me_primal":
+                M = repair_povm(Ms_ref, eps_bits=26)
+                return [({"M": M, "LM": [chol_factor(m.to_float(), delta=2.0 ** -31) for m in M]}, [])]
+            Y = DM.from_float((Y_ref + Y_ref.conj().T) / 2, 40).herm_part() + I.scale_dy(1, 24)
+            LY = []
+            for i in range(k):
+                m_, e_ = _pdy(probs[i])
+                LY.append(chol_factor((Y - rhos[i].scale_dy(m_, e_)).to_float()))
+            return [({"Y": Y, "LY": LY}, [("Y-optimal-minus-1/32", {"Y": Y - I.scale_dy(1, 5)})])]
+        G = V.H() @ V
+        q_ref, Z_ref = _solve_unamb_ref(G.to_float(), probs)
+        if form == "ua_primal":
+            q = [max(0, int(np.floor(float(x) * (1 - 2.0 ** -18) * (1 << QBITS))) - (1 << 16)) for x in q_ref]
+            qd = DM(np.diag(np.array(q, dtype=object)) + np.zeros((k, k), dtype=object), np.zeros((k, k), dtype=object) * 0, QBITS)
+            return [({"q": q, "L": chol_factor((G - qd).to_float())}, [("q-optimal-plus-1/32", {"q": [x + (1 << (QBITS - 5)) for x in q]})])]
+        Ik = DM.eye(k)
+        Z = DM.from_float((Z_ref + Z_ref.conj().T) / 2, 40).herm_part() + Ik.scale_dy(1, 22)
+        return [({"Z": Z, "LZ": chol_factor(Z.to_float())}, [("Z-optimal-minus-1/32", {"Z": Z - Ik.scale_dy(1, 5)})])]
+    except Exception:
+        return []
+
+
+def _captured_layout(P, form, d, k):
+    """[(kind, constraint)] of the captured problem and whether it has the constraint layout of the modelled program; CorrespondenceBroken when
+    its VARIABLES are not those of the modelled program (then no point of the model can be written into it).  Constraints are evaluated whatever
+    they are: a dropped or relaxed constraint lets a negative control through, an added or tightened one rejects a certified feasible point."""
+    names = sorted(P.variables.keys())
+    want = _EMBED_VARS[form] or sorted(f"M[{i}]" for i in range(k))
+    if names != want:
+        raise CorrespondenceBroken(f"state_distinguishability/{form}: the captured picos problem has variables {names}, the modelled program has {want}")
+    for n_, v in P.variables.items():
+        shp = {"me_primal": (d, d), "me_dual": (d, d), "ua_primal": (k, 1), "ua_dual": (k, k)}[form]
+        if tuple(v.shape) != shp:
+            raise CorrespondenceBroken(f"state_distinguishability/{form}: variable {n_} has shape {tuple(v.shape)}, the modelled program has {shp}")
+    cons = []
+    for c in P.constraints.values():
+        if hasattr(c, "psd"):
+            cons.append(("psd", c))
+        elif type(c).__name__ == "ComplexAffineConstraint" or (hasattr(c, "is_equality") and c.is_equality()):
+            cons.append(("eq", c))
+        else:
+            cons.append(("ge", c))        # evaluated through its slack
+    for v in P.variables.values():     # bounds attached to a variable (`lower=0`) act as constraints
+        if getattr(v, "num_bounds", 0):
+            cons.append(("bound", v))
+    want_kinds = {"me_primal": ["psd"] * k + ["eq"], "me_dual": ["psd"] * k, "ua_primal": ["psd", "bound"], "ua_dual": ["psd"] + ["ge"] * k}[form]
+    return cons, [kd for kd, _ in cons] == want_kinds
+
+
+def _assign(P, form, pt, k):
+    """write the exact point (as floats) into the captured variables; returns an error text when a variable refuses the value"""
+    try:
+        if form == "me_primal":
+            for i in range(k):
+                P.variables[f"M[{i}]"].value = pt["M"][i].to_float()
+        elif form == "me_dual":
+            P.variables["Y"].value = pt["Y"].to_float()
+        elif form == "ua_primal":
+            P.variables["success_probabilities"].value = [float(Fraction(x, 1 << QBITS)) for x in pt["q"]]
+        else:
+            P.variables["Z"].value = pt["Z"].to_float()
+    except Exception as e:   # e.g. a real symmetric variable refusing a complex Hermitian value
+        return f"{type(e).__name__}: {str(e)[:200]}"
+    return None
+
+
+def _captured_residuals(cons):
+    """per constraint: ('psd', slack matrix) / ('eq', residual array) / ('ge', slack numbers >= 0 iff satisfied) as complex numpy arrays"""
+    def val(e):
+        return np.atleast_2d(np.array(e.np, dtype=complex))
+
+    out = []
+    for kd, c in cons:
+        if kd == "psd":
+            out.append((kd, val(c.psd)))
+        elif kd == "eq":
+            out.append((kd, val(c.lhs) - val(c.rhs)))
+        elif kd == "bound":
+            out.append(("ge", np.atleast_2d(np.array(c.bound_constraint.slack, dtype=float)).astype(complex)))
+        else:
+            out.append(("ge", np.atleast_2d(np.array(c.slack, dtype=float)).astype(complex)))
+    return out
+
+
+def _violation_of(capt):
+    """largest violation of the captured constraints at the current point: -min eigenvalue (and non-Hermiticity) of a PSD slack, modulus of an
+    equality residual, -min of a `>=` slack"""
+    vio = 0.0
+    for kc, a in capt:
+        if not a.size:
+            continue
+        if kc == "psd":
+            vio = max(vio, -float(np.min(np.linalg.eigvalsh((a + a.conj().T) / 2))), float(np.max(np.abs(a - a.conj().T))))
+        elif kc == "eq":
+            vio = max(vio, float(np.max(np.abs(a))))
+        else:
+            vio = max(vio, -float(np.min(np.real(a))))
+    return vio
+
+
+def _point_json(pt):
+    j = {}
+    for key, v in pt.items():
+        if v is None:
+            continue
+        if key == "q":
+            j[key] = [[int(x), 1 << QBITS] for x in v]
+        elif isinstance(v, list):
+            if any(x is None for x in v):
+                continue
+            j[key] = [x.json() for x in v]
+        else:
+            j[key] = v.json()
+    return j
+
+
+def work_embed(task, res: Result):
+    from toqito.state_opt import state_distinguishability
+    warnings.filterwarnings("ignore")
+    inst, seed = task
+    rng = np.random.default_rng(seed)
+    drv = worker_driver()
+    states, probs, d, k = inst["states"], inst["probs"], inst["d"], inst["k"]
+    raw = []            # exact images of what to_density_matrix returns for the arrays as given (no Hermitian part taken)
+    for s_ in states:
+        a = np.asarray(s_)
+        if a.ndim == 1 or 1 in a.shape:
+            v = DM.exact_float(a.reshape(-1, 1))
+            raw.append(v @ v.H())
+        else:
+            raw.append(DM.exact_float(a))
+    herm_in = all(r.is_herm() for r in raw)
+    vec_in = inst["form"] in ("vec1d", "col")
+    V = DM.exact_float(np.stack([np.asarray(s_).reshape(-1) for s_ in states], axis=1)) if vec_in else None
+    base = {kk: inst[kk] for kk in ("d", "k", "cplx", "form", "kind", "probs")}
+    base["states"] = [np.asarray(s_) for s_ in states]
+    base["pres"], base["real_idx"] = inst.get("pres"), list(inst.get("real_idx", ()))
+    pj = [frac_json(Fraction(float(p))) for p in probs] if inst["probs_given"] else None
+    sargs = _state_args(states)
+    cplx = any(np.iscomplexobj(np.asarray(s_)) and np.any(np.imag(np.asarray(s_))) for s_ in states)
+    thm = "checkMinErrPrimal_sound / checkMinErrDual_sound / checkUnambPrimal_sound / checkUnambDual_sound (the programs they speak about), sd_gram_and_density"
+    for form, (strategy, pd, direction) in _EMBED_FORMS.items():
+        if form.startswith("ua") and not vec_in:
+            continue
+        desc0 = dict(base, fn="embedding", emb_form=form, strategy=strategy, primal_dual=pd, solver="cvxopt", probs_given=inst["probs_given"], seed=int(seed))
+        prng = call_rng(inst.get("pres"), "embed", form)
+        vecs = present_list(prng, states, force_real=inst.get("real_idx", ()))
+        got = _capture(lambda: state_distinguishability(vecs, (list(probs) if inst["probs_given"] else None), strategy=strategy, primal_dual=pd))
+        if len(got) != 1:
+            raise CorrespondenceBroken(f"state_distinguishability({strategy},{pd}): expected one picos problem handed to solve(), captured {len(got)}")
+        P, kw = got[0]
+        res.count("embedding/problems-captured")
+        if kw.get("solver") != "cvxopt":
+            res.count("embedding/other-default-solver")
+        cons, same_layout = _captured_layout(P, form, d, k)
+        res.count("embedding/constraints-captured", len(cons))
+        if not same_layout:
+            res.count("embedding/other-constraint-layout")
+        if P.objective.direction != direction:
+            res.violation(f"state_distinguishability({strategy},{pd}) hands a '{P.objective.direction}' problem to the solver, the modelled program is a '{direction}' problem",
+                          {"function": "state_distinguishability", "args": desc0, "impl": P.objective.direction, "model": direction, "check": "embedding-direction", "cplx": inst["cplx"],
+                           "theorem": "minErr_weak_duality / unamb_weak_duality"})
+            continue
+        points = [("interior",) + _embed_points(rng, form, raw, probs, V, d, k, cplx)]
+        if herm_in:
+            points += [("near-optimal",) + x for x in _near_optimal_points(form, raw, probs, V, d, k)]
+        shape = (d, d) if form.startswith("me") else (k, k)
+        for pname, pt, bad in points:
+            desc = dict(desc0, point=pname)
+            m = drv.ask("sd_program", dict({"d": d, "states": sargs, "p": pj, "form": form}, **_point_json(pt)))
+            if "reject" in m:
+                raise RuntimeError(f"sd_program rejected the request: {m}")
+            feasible = "ok" in m["check"]
+            if not feasible:
+                # a PSD witness could not be computed (degenerate optimum) or the raw input is not exactly Hermitian: counted, no feasibility verdict
+                res.count(f"embedding/{pname}-point-not-certified" + ("" if herm_in else "/non-hermitian-input"))
+            why = _assign(P, form, pt, k)
+            ptj = _point_json({kk: vv for kk, vv in pt.items() if not kk.startswith("L")})
+            if why is not None:
+                res.case(desc, True, f"embedding/{form}/variable-refuses-point")
+                res.violation(f"state_distinguishability({strategy},{pd}): a point of the modelled program cannot be written into the variables of the program the code builds ({why})",
+                              {"function": "state_distinguishability", "args": desc, "impl": why, "model": "feasible" if feasible else "uncertified", "check": "embedding-variable", "cplx": inst["cplx"],
+                               "point": ptj, "theorem": thm})
+                break
+            capt = _captured_residuals(cons)
+            model = [("psd", _qmat(x, shape)) for x in m["psd"]] + [("eq", _qmat(x, shape)) for x in m["eq"]]
+            if m["ge"]:
+                ge = np.array([float(Fraction(*x)) for x in m["ge"]]).astype(complex)
+                model += [("ge", ge.reshape(-1, 1))] if form == "ua_primal" else [("ge", np.array([[g]])) for g in ge]
+            worst = None
+            if same_layout and len(model) == len(capt) and all(a.shape == b_.shape for (_, a), (_, b_) in zip(capt, model)):
+                worst = max([float(np.max(np.abs(a - b_))) if a.size else 0.0 for (_, a), (_, b_) in zip(capt, model)] + [0.0])
+            obj_c = complex(P.objective.function.value)
+            obj_m = float(Fraction(*m["objective"]))
+            scale = max([1.0] + [float(np.max(np.abs(b_))) for _, b_ in model if b_.size])
+            res.case(desc, feasible, f"embedding/{form}/{pname}/{inst['form']}/{'c' if inst['cplx'] else 'r'}/{'feasible' if feasible else 'uncertified'}")
+            # evidence only: are the constraints written exactly as in the model (same slack operators), or in an equivalent other form?
+            res.count("embedding/slacks-identical" if (worst is not None and worst <= EMB_TOL * scale) else "embedding/slacks-differ")
+            if abs(obj_c - obj_m) > EMB_TOL * scale:
+                res.violation(f"state_distinguishability({strategy},{pd}): the objective of the program the code builds is {obj_c!r} at an exact point, the modelled objective is {obj_m!r}",
+                              {"function": "state_distinguishability", "args": desc, "impl": [obj_c.real, obj_c.imag], "model": obj_m, "check": "embedding-objective", "cplx": inst["cplx"], "point": ptj, "theorem": thm})
+                break
+            if feasible:
+                vio = _violation_of(capt)
+                if vio > 1e-9:
+                    res.violation(f"state_distinguishability({strategy},{pd}): a point certified feasible for the modelled program ({pname}) violates a constraint of the program the code builds by {vio:.3e}",
+                                  {"function": "state_distinguishability", "args": desc, "impl": vio, "model": "feasible", "check": "embedding-feasible", "cplx": inst["cplx"], "point": ptj, "theorem": thm})
+                    break
+                res.count("embedding/feasible-points-embedded")
+            # negative controls: the model rejects, and some captured constraint is violated
+            for label, mod in bad:
+                pt2 = dict(pt, **mod)
+                m2 = drv.ask("sd_program", dict({"d": d, "states": sargs, "p": pj, "form": form}, **_point_json(pt2)))
+                if "ok" in m2.get("check", {}):
+                    raise RuntimeError(f"negative control {label}: the verified checker accepted an infeasible point")
+                # the control must be infeasible for the MODEL by a margin, else it proves nothing
+                worst_m = min([float(np.min(np.linalg.eigvalsh(_qmat(x, shape)))) for x in m2["psd"]] + [float(Fraction(*x)) for x in m2["ge"]]
+                              + [-float(np.max(np.abs(_qmat(x, shape)))) for x in m2["eq"]])
+                if worst_m > -1e-2:
+                    continue
+                if _assign(P, form, pt2, k) is not None:
+                    continue
+                vio = _violation_of(_captured_residuals(cons))
+                res.count("embedding/negative-controls")
+                if vio < EMB_BAD:
+                    res.violation(f"state_distinguishability({strategy},{pd}): the infeasible point '{label}' (rejected by the model, which it violates by {-worst_m:.3e}) satisfies every constraint of the "
+                                  f"program the code builds (largest violation {vio:.3e}): a constraint is missing or weakened",
+                                  {"function": "state_distinguishability", "args": dict(desc, control=label), "impl": vio, "model": "infeasible", "check": "embedding-negative-control", "cplx": inst["cplx"],
+                                   "point": _point_json({kk: vv for kk, vv in pt2.items() if not kk.startswith("L")}), "theorem": thm})
+
+
+# ------------------------------------------------------------------------------------------------
+# stream `front`: argument check, defaults and dispatch of state_distinguishability against the Lean mirror `sdFront`
+
+
+def _shape_json(a):
+    a = np.asarray(a)
+    return [int(x) for x in a.shape]
+
+
+def work_front(task, res: Result):
+    """which program is built for which arguments (no solve): accepted / ValueError, number of states, dimension, program chosen by `strategy` /
+    `primal_dual` including the omitted-argument defaults, and the default solver"""
+    from toqito.state_opt import state_distinguishability
+    warnings.filterwarnings("ignore")
+    arrs, probs, strategy, pd = task
+    drv = worker_driver()
+    m = drv.ask("sd_front", {"shapes": [_shape_json(a) for a in arrs], "p": (None if probs is None else [frac_json(Fraction(float(p))) for p in probs]),
+                             "strategy": strategy, "primal_dual": pd})
+    kw = {}
+    if strategy is not None:
+        kw["strategy"] = strategy
+    if pd is not None:
+        kw["primal_dual"] = pd
+    raised = None
+    got = []
+    try:
+        got = _capture(lambda: state_distinguishability([np.array(a) for a in arrs], (None if probs is None else list(probs)), **kw))
+    except Exception as e:
+        raised = e
+    desc = {"fn": "front", "shapes": [_shape_json(a) for a in arrs], "probs": probs, "strategy": strategy, "primal_dual": pd}
+    if "reject" in m:
+        res.case(desc, True, "front/rejected")
+        if not isinstance(raised, ValueError):
+            raise CorrespondenceBroken(f"state_distinguishability on arrays of shapes {desc['shapes']}: the model raises ValueError, the code {'built a program' if raised is None else 'raises ' + type(raised).__name__}")
+        return
+    res.case(desc, True, f"front/{m['form']}/{'default' if strategy is None else 'given'}-strategy/{'default' if pd is None else 'given'}-form/{'no' if probs is None else 'with'}-probs")
+    if raised is not None or len(got) != 1:
+        raise CorrespondenceBroken(f"state_distinguishability on arrays of shapes {desc['shapes']} ({kw}): the model builds the program {m['form']}, the code "
+                                   + (f"raises {type(raised).__name__}: {str(raised)[:120]}" if raised is not None else f"hands {len(got)} problems to the solver"))
+    P, skw = got[0]
+    names = sorted(P.variables.keys())
+    form = {"Y": "me_dual", "success_probabilities": "ua_primal", "Z": "ua_dual"}.get(names[0], "me_primal" if names[0].startswith("M[") else "?")
+    shp = tuple(next(iter(P.variables.values())).shape)
+    n_c = {"me_primal": len(names), "me_dual": len(P.constraints), "ua_primal": shp[0], "ua_dual": shp[0]}.get(form, -1)
+    dim_c = shp[0] if form in ("me_primal", "me_dual") else None
+    if form != m["form"]:
+        res.violation(f"state_distinguishability(strategy={strategy!r}, primal_dual={pd!r}) builds the program {form}, the documented dispatch (and the model) gives {m['form']}",
+                      {"function": "state_distinguishability", "args": desc, "impl": form, "model": m["form"], "check": "front-dispatch", "theorem": "sd_dispatch"})
+        return
+    if n_c != m["n"] or (dim_c is not None and dim_c != m["dim"]):
+        raise CorrespondenceBroken(f"state_distinguishability on shapes {desc['shapes']}: program for {n_c} states in dimension {dim_c}, the model: {m['n']} states in dimension {m['dim']}")
+    if skw.get("solver") != m["solver"]:
+        res.count("front/other-default-solver")
+
+
+# ------------------------------------------------------------------------------------------------
+# stream `post`: what is_distinguishable does around the solve (state_distinguishability replaced by a recorder)
+
+
+def work_post(task, res: Result):
+    import importlib
+    states, probs, vals = task
+    drv = worker_driver()
+    mod = importlib.import_module("toqito.state_props.is_distinguishable")
+    if not hasattr(mod, "state_distinguishability"):
+        raise CorrespondenceBroken("is_distinguishable: the module no longer refers to state_distinguishability by a module-level name")
+    fn = mod.is_distinguishable
+    for v in vals:
+        calls = []
+
+        def stub(*a, **kw):
+            calls.append((a, kw))
+            return float(v), None
+
+        orig = mod.state_distinguishability
+        mod.state_distinguishability = stub
+        try:
+            out = fn(list(states)) if probs is None else fn(list(states), list(probs))
+        finally:
+            mod.state_distinguishability = orig
+        desc = {"fn": "post", "function": "is_distinguishable", "n": len(states), "v": float(v), "probs": probs}
+        m = drv.ask("sd_post", {"v": frac_json(Fraction(float(v)))})
+        near = abs(abs(float(v) - 1.0) - 1.001e-5) <= 1e-13    # float and rational thresholds may differ in the last bits: guard only
+        res.case(desc, not near, "post/is_distinguishable")
+        if len(calls) != 1:
+            raise CorrespondenceBroken(f"is_distinguishable calls state_distinguishability {len(calls)} times, the model: once")
+        a, kw = calls[0]
+        names = ("vectors", "probs", "strategy", "solver", "primal_dual")
+        got = dict(zip(names, a), **kw)
+        pr = got.get("probs")
+        ok_args = (((pr is None) if probs is None else (pr is not None and [float(x) for x in pr] == [float(x) for x in probs]))
+                   and got.get("strategy", "min_error") == m["strategy"] and got.get("primal_dual", "dual") == m["primal_dual"]
+                   and len(got.get("vectors", ())) == len(states) and all(np.array_equal(np.asarray(x), np.asarray(y)) for x, y in zip(got["vectors"], states)))
+        if not ok_args:
+            raise CorrespondenceBroken(f"is_distinguishable calls state_distinguishability with probs={pr!r}, strategy={got.get('strategy')!r}, primal_dual={got.get('primal_dual')!r}; "
+                                       "the model: the caller's states and probs, min_error, dual")
+        if near or bool(out) == bool(m["dist"]):
+            continue
+        if abs(float(v) - 1.0) <= 1e-6 or abs(float(v) - 1.0) >= 1e-3:
+            # contradicts the property itself: a value that is 1 to solver accuracy must be reported distinguishable, a value 1e-3 away must not
+            res.violation(f"is_distinguishable answers {bool(out)} for the minimum-error value {float(v)!r}",
+                          {"function": "is_distinguishable", "args": desc, "impl": bool(out), "model": bool(m["dist"]), "check": "post-value",
+                           "theorem": "sd_dist_test_iff / sd_dist_test_false_of_dual / sd_dist_test_true_of_near_one"})
+        else:
+            raise CorrespondenceBroken(f"is_distinguishable answers {bool(out)} for the solver value {float(v)!r}; the model np.isclose(v, 1) gives {bool(m['dist'])}")
+
+
+def _sdp_solvers():
+    """every solver picos has available that can solve a (tiny) complex SDP; 'cvxopt' first"""
+    import picos
+    out = []
+    for s in picos.available_solvers():
+        try:
+            P = picos.Problem()
+            X = picos.HermitianVariable("X", (2, 2))
+            P.add_constraint(X >> 0)
+            P.add_constraint(picos.trace(X) == 1)
+            P.set_objective("min", (X | np.array([[1.0, 0.5j], [-0.5j, 0.0]])).real)
+            P.solve(solver=s)
+            out.append(s)
+        except Exception:
+            continue
+    return sorted(out, key=lambda s: s != "cvxopt")
+
+
 def run(ctx, model_ok=True):
+    global _tier
     rng = ctx.rng
     quick = ctx.tier == "quick"
+    _tier = ctx.tier  # inherited by the forked workers
     ctx.matchers["unamb_dual_complex_typeerror"] = lambda info: (info.get("args", {}).get("strategy") == "unambiguous" and info.get("args", {}).get("primal_dual") == "dual"
                                                                   and info.get("cplx") and "exception" in info and "TypeError" in info["exception"])
     n_inst = 160 if quick else 1200
-    solvers = ["cvxopt"]
+    warnings.filterwarnings("ignore")
+    solvers = ["cvxopt"] if quick else (_sdp_solvers() or ["cvxopt"])     # "every supported solver": all SDP-capable solvers picos finds (thorough tier)
+    ctx.extra["solvers"] = solvers
     tasks = []
     prs = rng.spawn(1)[0]   # presentation stream: a child of the seeded generator (spawning does not consume the parent's draws)
     for i in range(n_inst):
         inst = vary_ensemble(prs, gen_instance(rng, quick))
-        calls = [("min_error", "primal", "cvxopt"), ("min_error", "dual", "cvxopt"), ("unambiguous", "primal", "cvxopt"), ("unambiguous", "dual", "cvxopt")]
+        calls = [(st, pd, sv) for sv in solvers for (st, pd) in (("min_error", "primal"), ("min_error", "dual"), ("unambiguous", "primal"), ("unambiguous", "dual"))]
         tasks.append((inst, calls))
     # closed-form stream: the families with a proved closed form, through the same worker
     for i in range(24 if quick else 180):
@@ -525,20 +1165,79 @@ def run(ctx, model_ok=True):
             U = np.real(U)
         inv.append((inst, U, [int(x) for x in rng.permutation(inst["k"])]))
     run_pool(ctx, work_invariance, inv)
+    insts = [t[0] for t in tasks[:n_inst]]
+    # ---- history independence: values before and after a call that hands solver options over
+    hist = []
+    for i, (st, pd) in enumerate([("min_error", "primal"), ("min_error", "dual"), ("unambiguous", "primal"), ("unambiguous", "dual")] * (5 if quick else 16)):
+        cand = [x for x in insts if x["form"] in ("vec1d", "col") and x["kind"] in ("random", "near")] if st == "unambiguous" else insts
+        if len(cand) >= 2:
+            hist.append((cand[(2 * i) % len(cand)], cand[(2 * i + 1) % len(cand)], st, pd))
+    run_pool(ctx, work_history, hist)
+    # ---- the programs the code builds against the modelled programs (no solve)
+    emb = insts[: (64 if quick else 400)]
+    run_pool(ctx, work_embed, [(inst, int(rng.integers(2 ** 31))) for inst in emb])
+    # ---- argument check, defaults and dispatch (no solve)
+    front = []
+    for i in range(64 if quick else 400):
+        d_ = int(rng.choice([2, 3, 4]))
+        k_ = int(rng.integers(2, 6))
+        lay = str(rng.choice(["vec1d", "col", "row", "dm", "vec-mixed", "mismatch", "mismatch-dm", "nonsquare"], p=[0.2, 0.2, 0.05, 0.2, 0.15, 0.1, 0.05, 0.05]))
+        arrs = []
+        for n_ in range(k_):
+            v = qgen.unit(qgen.int_vector(rng, d_, bool(rng.integers(2))))
+            f = lay if lay != "vec-mixed" else str(rng.choice(["vec1d", "col"]))
+            if f == "vec1d":
+                arrs.append(v)
+            elif f == "col":
+                arrs.append(v.reshape(-1, 1))
+            elif f == "row":
+                arrs.append(v.reshape(1, -1))
+            elif f == "dm":
+                arrs.append(np.outer(v, v.conj()))
+            elif f == "mismatch":
+                arrs.append(v if n_ != k_ - 1 else np.concatenate([v, [0.0]]))
+            elif f == "mismatch-dm":
+                arrs.append(np.outer(v, v.conj()) if n_ == 0 else v)
+            else:
+                arrs.append(np.outer(np.concatenate([v, [0.0]]), v.conj()))     # (d+1) x d arrays: neither vectors nor square
+        st = [None, "min_error", "unambiguous"][int(rng.integers(3))]
+        if lay in ("dm", "mismatch-dm", "nonsquare", "row") and st == "unambiguous":
+            st = "min_error"     # the Gram-form programs are modelled for 1-D / column vector arguments only
+        pd = [None, "primal", "dual"][int(rng.integers(3))]
+        pr = None if rng.integers(2) else qgen.dyadic_probs(rng, k_)
+        front.append((arrs, pr, st, pd))
+    run_pool(ctx, work_front, front)
+    # ---- is_distinguishable around the solve
+    post_vals = [1.0, 1.0 - 1e-9, 1.0 + 1e-9, 1.0 - 9e-6, 1.0 + 9e-6, 1.0 - 1.1e-5, 1.0 + 1.1e-5, 1.0 - 1e-4, 0.999, 0.5, 0.0, 1.5] + [float(1.0 + x) for x in (rng.random(4 if quick else 40) - 0.5) * rng.choice([1e-5, 4e-5, 1e-2, 1.0], size=(4 if quick else 40))]
+    run_pool(ctx, work_post, [([np.eye(n_)[:, i % n_] for i in range(m_)], pr_, post_vals) for (n_, m_, pr_) in ((2, 2, None), (3, 2, [0.25, 0.75]), (3, 3, None), (4, 4, [0.125, 0.125, 0.25, 0.5]))])
+    ctx.extra["embedding"] = {"tolerance_objective": EMB_TOL, "tolerance_feasible": 1e-9, "negative_control_margin": EMB_BAD}
     ctx.extra["tolerances"] = TAU
     ctx.extra["certified_interval_width_bound"] = WIDTH_OK
 
 
 def replay(ctx, rec):
     a = rec["args"]
-    inst = {"d": a["d"], "k": a["k"], "cplx": a["cplx"], "form": a["form"], "kind": a.get("kind", "random"), "probs": a["probs"], "probs_given": a.get("probs_given", True),
+    inst = {"d": a.get("d"), "k": a.get("k"), "cplx": a.get("cplx"), "form": a.get("form"), "kind": a.get("kind", "random"), "probs": a.get("probs"), "probs_given": a.get("probs_given", True),
             "pres": a.get("pres"), "real_idx": a.get("real_idx") or []}
 
     def arr(s):
         x = np.array([[complex(e["re"], e["im"]) if isinstance(e, dict) else e for e in row] if isinstance(row, list) else (complex(row["re"], row["im"]) if isinstance(row, dict) else row) for row in s])
         return x
-    inst["states"] = [arr(s) for s in a["states"]]
+    inst["states"] = [arr(s) for s in a.get("states", [])]
     res = Result()
-    work((inst, [(a["strategy"], a["primal_dual"], a["solver"])]), res)
     from ..pool import fold
+    if a.get("fn") == "post":
+        work_post(([np.eye(a["n"])[:, i % a["n"]] for i in range(a["n"])], a.get("probs"), [a["v"]]), res)
+    elif a.get("fn") == "front":
+        work_front(([np.zeros(tuple(sh)) + 1.0 for sh in a["shapes"]], a.get("probs"), a.get("strategy"), a.get("primal_dual")), res)
+    elif a.get("fn") == "embedding":
+        work_embed((inst, a["seed"]), res)
+    elif a.get("fn") == "history":
+        o = a["other"]
+        instB = dict(inst, states=[arr(s) for s in o["states"]], probs=o["probs"])
+        work_history((inst, instB, a["strategy"], a["primal_dual"]), res)
+    elif a.get("fn") == "is_distinguishable":
+        work((inst, [("min_error", "dual", "cvxopt")]), res)
+    else:
+        work((inst, [(a["strategy"], a["primal_dual"], a["solver"])]), res)
     fold(ctx, res)
